@@ -262,3 +262,54 @@ def run_C13(tier, seed, t0):
                            'symbolic insertion positions and symbolic comment text at program level (CrossHair does not confirm them)',
                            'programs other than the template'],
                   extra=dict(engine_note='E2 CrossHair for the textual conditions, E1 symx for imm(reg) and operands'))
+
+
+def run_C14(tier, seed, t0):
+    from .include import TREES
+    kbits = 40 if tier == 'thorough' else 34
+    specs = [('harness.include', 'include_task', (t, kbits)) for t in TREES]
+    specs += [('harness.data', 'include_bytes_task', (k,)) for k in range(3)]
+    res = pmap(specs)
+    return finish('C14', tier, seed, res, t0,
+                  bounds=dict(trees='depth 2 (include in the middle) and depth 3 (include first and last, quoted names, ../ in the name)',
+                              candidates='the included file exists in any subset of {next to the including file, -i directory, next to the main file, working directory} (symbolic bits)',
+                              working_directory='one of 4 (symbolic selector)', operands='one symbolic %d-bit constant used in main and included files' % kbits,
+                              include_bytes='three include_bytes settings shared with C10'),
+                  stubs=STUBS_ASM + ['virtual file system with symbolic existence bits and working directory'],
+                  assumptions=['precedence between a -i directory and the adjacent directory is not fixed by the property: either spliced program is accepted'] + STUBS_ASM,
+                  outside=['real OS semantics (symlinks, permissions)', 'indented include lines', 'sources passed as text (no directory of their own)'])
+
+
+def run_C15(tier, seed, t0):
+    from .errors import FAULTS
+    specs = []
+    for f in FAULTS:
+        combos = [(0, 'text'), (len(f[1]) % 9 + 1, 'text'), (10, 'text'), (1, 'included')]
+        if tier == 'thorough':
+            combos = [(p, 'text') for p in range(0, 11)] + [(p, 'file') for p in (0, 5, 10)] + [(p, 'included') for p in range(3)]
+        for pos, where in combos:
+            if f[0] in ('include_missing', 'include_bytes_missing') and where == 'text' and pos not in (0, 10):
+                pass
+            for c in (False, True):
+                specs.append(('harness.errors', 'error_task', (f[0], pos, where, c)))
+    res = pmap(specs)
+    return finish('C15', tier, seed, res, t0,
+                  bounds=dict(fault_lines=len(FAULTS), placements='first / middle / last line of a 10-line program and inside an included file' if tier != 'thorough' else 'every position of a 10-line program, as text and as file, and three positions of an included file',
+                              symbolic='the faulty operand ranges over all values outside its legal set (signed 40-bit / 12-bit); the other operands (an I-immediate and a li value) are symbolic legal values',
+                              modes='compression off and on'),
+                  stubs=STUBS_ASM + ['virtual file system'],
+                  assumptions=['a program that is not refused carries no obligation here'] + STUBS_ASM,
+                  outside=['duplicate label definitions (the assembler does not refuse them)', 'lines with a wrong number of operands (not in the property\'s list of fault classes)'])
+
+
+def run_C16(tier, seed, t0):
+    from .purity import PROGRAMS, SEQS
+    specs = [('harness.purity', 'frame_task', (i, c)) for i in range(len(PROGRAMS)) for c in (False, True)]
+    specs += [('harness.purity', 'sequence_task', (i, m)) for i in range(len(SEQS)) for m in ('fresh', 'first-dicts')]
+    res = pmap(specs)
+    return finish('C16', tier, seed, res, t0,
+                  bounds=dict(frame='%d symbolic programs x 2 modes: after every path (failing ones included) the structural fingerprint of everything reachable from the module (tables, partials, class dicts, function defaults, closures) is unchanged and holds no symbolic value' % len(PROGRAMS),
+                              sequences='%d two-call histories x 2 dictionary-passing modes: second result compared with the result of the second program alone for all values of both programs\' independent symbols (off/on product query)' % len(SEQS)),
+                  stubs=STUBS_ASM,
+                  assumptions=['inductive step: if one call from the import-time state leaves the state unchanged, histories of any length do'] + STUBS_ASM,
+                  outside=['PYTHONHASHSEED independence (needs separate processes; no solver formulation)', 'state outside the asm module (logging configuration, os)'])
